@@ -13,6 +13,7 @@ import time
 ROOT = os.path.dirname(os.path.dirname(os.path.abspath(__file__)))
 REPO = os.environ.get('BIOM_REPO', '/repo')
 COQ = os.path.join(ROOT, 'coq')
+OUT = os.environ.get('VERIF_OUT', ROOT)     # evidence/ and replays/ go here (redirected when trying seeded changes)
 
 HYGIENE = re.compile(r'\b(Admitted|admit|Axiom|Axioms|Parameter|Parameters|Conjecture|Hypothesis|Variable)\b'
                      r'|Unset\s+Guard|bypass_check|type-in-type|impredicative-set|Admit\s+Obligations')
@@ -237,7 +238,7 @@ def load_corpus(pid):
 
 
 def write_replay(pid, seed, payload):
-    d = os.path.join(ROOT, 'replays')
+    d = os.path.join(OUT, 'replays')
     os.makedirs(d, exist_ok=True)
     path = os.path.join(d, '%s-%s.json' % (pid, seed))
     payload = dict(payload, property=pid, replay_cmd='./check %s --replay %s' % (pid, path))
@@ -246,7 +247,7 @@ def write_replay(pid, seed, payload):
 
 
 def write_evidence(pid, tier, seed, coverage, assumptions, wall, violations):
-    d = os.path.join(ROOT, 'evidence')
+    d = os.path.join(OUT, 'evidence')
     os.makedirs(d, exist_ok=True)
     ev = {'property_id': pid, 'tier': tier, 'seed': seed, 'level': 'proof', 'coverage': coverage,
           'assumptions': assumptions, 'wall_s': round(wall, 1), 'violations': violations}
